@@ -25,6 +25,13 @@ pub enum QuoteTarget {
 
 /// Escapes atomic value that could be part of a `xs:list`. All whitespace characters
 /// additionally escaped
+#[cfg(any(kani, quick_xml_verif))]
+pub(super) fn verif_escape_item(value: &str, target: QuoteTarget, level: QuoteLevel) -> Cow<str> {
+    escape_item(value, target, level)
+}
+
+/// Escapes atomic value that could be part of a `xs:list`. All whitespace characters
+/// additionally escaped
 fn escape_item(value: &str, target: QuoteTarget, level: QuoteLevel) -> Cow<str> {
     use QuoteLevel::*;
     use QuoteTarget::*;
@@ -91,6 +98,12 @@ fn escape_item(value: &str, target: QuoteTarget, level: QuoteLevel) -> Cow<str> 
             _ => false,
         }),
     }
+}
+
+/// Escapes XSD simple type value
+#[cfg(any(kani, quick_xml_verif))]
+pub(super) fn verif_escape_list(value: &str, target: QuoteTarget, level: QuoteLevel) -> Cow<str> {
+    escape_list(value, target, level)
 }
 
 /// Escapes XSD simple type value
